@@ -287,3 +287,96 @@ Definition check_c05 (c : c05case) : list N :=
   | C5Strict c => model_check c ++ flag 2 (spec_c05 c)
   | C5Literal c => flag 2 (spec_c05_literal c)
   end.
+
+(* ==== manager-level cases (components noise_mgr06 / noise_mgr07): dumps of real HandshakeManager + HostMap ======== *)
+
+(* one hostinfo of a main hostmap: peer overlay address number, local index, remote index, message counter, initiator *)
+Record mtun := mkMTun { mt_peer : N; mt_local : N; mt_remote : N; mt_counter : N; mt_init : bool }.
+
+(* C06 between two real nodes with scripted responder index candidates.
+   deliveries: (kind, first candidate generateIndex drew, indexes in use at the responder, did it reply) with kind
+   0 = message 1 (first transmission or retransmit) while the responder holds no tunnel of this handshake, 1 = duplicate
+   of a message 1 the responder already completed on;
+   tunI / tunR: the initiator's tunnels towards the responder / the responder's towards the initiator;
+   opens: a data packet sealed on the tunnel with local index a, addressed to remote index b, reached the tunnel with
+   local index c at the other node (0 = none) and opened there or not. *)
+Inductive m06case :=
+| M6 (deliveries : list (N * N * list N * bool)) (tunI tunR : list mtun)
+     (opensIR opensRI : list (N * N * N * bool)).
+
+Definition nmem (x : N) (l : list N) : bool := existsb (N.eqb x) l.
+
+(* the documented rule: a drawn index that is already in use drops the attempt (no reply); the retransmit is a new try *)
+Definition m06_model (c : m06case) : bool :=
+  let '(M6 ds tunI _ _ _) := c in
+  forallb (fun d : N * N * list N * bool =>
+             let '(kind, cand, used, replied) := d in
+             if kind =? 0 then Bool.eqb replied (negb (nmem cand used)) else replied) ds
+  && Bool.eqb (existsb (fun d : N * N * list N * bool => let '(kind, cand, used, _) := d in (kind =? 0) && negb (nmem cand used)) ds)
+              (negb (match tunI with [] => true | _ => false end)).
+
+(* C06 as proved, on the dumps: two hostinfos that belong to the same handshake (the responder's remote index is the
+   initiator's local index) agree on the other direction too, on the message count and on the roles; every tunnel of
+   the initiator has such a partner; data sealed on a tunnel arrives at the partner tunnel and opens there *)
+Definition m06_spec (c : m06case) : bool :=
+  let '(M6 _ tunI tunR oIR oRI) := c in
+  forallb (fun ti =>
+    forallb (fun tr => if mt_remote tr =? mt_local ti
+                       then (mt_remote ti =? mt_local tr) && (mt_counter ti =? mt_counter tr) && mt_init ti && negb (mt_init tr)
+                            && negb (mt_local ti =? 0) && negb (mt_local tr =? 0)
+                       else true) tunR
+    && existsb (fun tr => mt_remote tr =? mt_local ti) tunR) tunI
+  && forallb (fun o : N * N * N * bool =>
+       let '(a, b, c', ok) := o in
+       ok && (c' =? b) && existsb (fun tr => (mt_local tr =? c') && (mt_remote tr =? a)) tunR) oIR
+  && forallb (fun o : N * N * N * bool =>
+       let '(a, b, c', ok) := o in
+       (* only tunnels of the responder that have a partner are expected to carry traffic *)
+       if existsb (fun ti => (mt_local ti =? b) && (mt_remote ti =? a)) tunI
+       then ok && (c' =? b)
+       else true) oRI.
+
+Definition check_m06 (c : m06case) : list N := flag 1 (m06_model c) ++ flag 2 (m06_spec c).
+
+(* everything observable about a pending handshake *)
+Record pdump := mkPD {
+  pd_present : bool; pd_local : N; pd_remote : N; pd_relays : list N; pd_remotes : list N; pd_counter : N; pd_stored : N
+}.
+
+Definition pdump_eqb (a b : pdump) : bool :=
+  Bool.eqb (pd_present a) (pd_present b) && (pd_local a =? pd_local b) && (pd_remote a =? pd_remote b)
+  && nlist_eqb (pd_relays a) (pd_relays b) && nlist_eqb (pd_remotes a) (pd_remotes b)
+  && (pd_counter a =? pd_counter b) && (pd_stored a =? pd_stored b).
+
+(* C07 through a real HandshakeManager.
+   M7Init: a pending initiator handshake; steps = (class of the rejected packet, dump before, dump after) for packets
+   that came from a foreign underlay address / a foreign relay; then the genuine reply from the genuine address / relay.
+   M7Resp: a responder node; steps = (class, (main indexes, pending indexes) before, after) for manipulated message 1s. *)
+Inductive m07case :=
+| M7Init (c : ccase) (steps : list (N * pdump * pdump)) (est : bool) (est_remote : N) (est_relays : list N)
+         (exp_remote : N) (exp_relays : list N)
+| M7Resp (c : ccase) (steps : list (N * (list N * list N) * (list N * list N))) (est : bool) (est_remote exp_remote : N).
+
+Definition m07_spec (c : m07case) : bool :=
+  match c with
+  | M7Init _ steps est er erl xr xrl =>
+      forallb (fun s : N * pdump * pdump =>
+                 let '(cl, b, a) := s in
+                 if cl =? 0 then pdump_eqb b a                     (* rejected, still usable: nothing at all changed *)
+                 else if cl =? 1 then negb (pd_present a)          (* rejected, failed: the handshake is abandoned *)
+                 else false) steps
+      && (if existsb (fun s : N * pdump * pdump => let '(cl, _, _) := s in negb (cl =? 0)) steps
+          then negb est
+          else est && (er =? xr) && nlist_eqb erl xrl)
+  | M7Resp _ steps est er xr =>
+      forallb (fun s : N * (list N * list N) * (list N * list N) =>
+                 let '(cl, b, a) := s in
+                 (cl =? 2) || (nlist_eqb (fst b) (fst a) && nlist_eqb (snd b) (snd a))) steps
+      && (if existsb (fun s : N * (list N * list N) * (list N * list N) => let '(cl, _, _) := s in cl =? 2) steps
+          then true
+          else est && (er =? xr))
+  end.
+
+Definition m07_script (c : m07case) : ccase := match c with M7Init s _ _ _ _ _ _ => s | M7Resp s _ _ _ _ => s end.
+
+Definition check_m07 (c : m07case) : list N := check_c07 (m07_script c) ++ flag 2 (m07_spec c).
